@@ -93,10 +93,30 @@ package phase0
 //@   ensures slashable: err == nil ==> !st_vals_err(state) && reg_valid(st_vals(state), ps.SignedHeader1.Message.ProposerIndex) && (let v := reg_val(st_vals(state), ps.SignedHeader1.Message.ProposerIndex) in !v_slashed(v) && v_act(v) <= epc.CurrentEpoch.Epoch && epc.CurrentEpoch.Epoch < v_wd(v))
 //@   ensures signatures: err == nil ==> (let dom := state_domain(state, common.DOMAIN_BEACON_PROPOSER, ps.SignedHeader1.Message.Slot / spec.SLOTS_PER_EPOCH) in !state_domain_err(state, common.DOMAIN_BEACON_PROPOSER, ps.SignedHeader1.Message.Slot / spec.SLOTS_PER_EPOCH) && sig_valid(ps.SignedHeader1.Signature) && sig_valid(ps.SignedHeader2.Signature) && (exists p CPubP :: pub_valid(p.Compressed) && bls_ok(p.Compressed, seq(signing_root(header_root(ps.SignedHeader1.Message), dom)), ps.SignedHeader1.Signature) && bls_ok(p.Compressed, seq(signing_root(header_root(ps.SignedHeader2.Message), dom)), ps.SignedHeader2.Signature)))
 
-//@ func ValidateIndexedAttestation(spec, epc, state, indexedAttestation) err
+// is_valid_indexed_attestation (C03): non-empty, bounded, strictly increasing index set (sortedness through sort.IsSorted,
+// uninterpreted), indices in range, aggregate signature over signing_root(htr(data), get_domain(DOMAIN_BEACON_ATTESTER, target epoch))
+//@ func ValidateIndexedAttestationNoSignature(spec, state, indexedAttestation) err
+//@   property C03
+//@   requires spec != nil && state != nil && indexedAttestation != nil
+//@   ensures set: err == nil ==> idxset_ok(spec, *indexedAttestation)
+//@   ensures range: err == nil ==> len(indexedAttestation.AttestingIndices) > 0 && !st_vals_err(state) && reg_valid(st_vals(state), indexedAttestation.AttestingIndices[len(indexedAttestation.AttestingIndices) - 1])
+
+// the aggregate signature check (pubkeys of the attesting indices from the cache, fast-aggregate-verify over
+// signing_root(htr(data), dom)): assumed predicate of (domain, cache, attestation)
+//@ sort DomT = common.BLSDomain
+//@ ufun idxatt_sig_ok(DomT, PcPtr, IdxAttT) bool
+//@ func ValidateIndexedAttestationSignature(spec, dom, pubCache, indexedAttestation) err
 //@   trusted
-//@   opt noalloc
-//@   ensures (err == nil) == idxatt_ok(spec, epc, state, *indexedAttestation)
+//@   assigns heap(CachedPubkey.decompressed)
+//@   ensures (err == nil) == idxatt_sig_ok(dom, pubCache, *indexedAttestation)
+
+//@ func ValidateIndexedAttestation(spec, epc, state, indexedAttestation) err
+//@   property C03
+//@   requires spec != nil && epc != nil && state != nil && indexedAttestation != nil && epc.ValidatorPubkeyCache != nil
+//@   assigns heap(CachedPubkey.decompressed)
+//@   names (err == nil) == idxatt_ok(spec, epc, state, *indexedAttestation)
+//@   ensures set: err == nil ==> idxset_ok(spec, *indexedAttestation) && len(indexedAttestation.AttestingIndices) > 0 && reg_valid(st_vals(state), indexedAttestation.AttestingIndices[len(indexedAttestation.AttestingIndices) - 1])
+//@   ensures signature: err == nil ==> !state_domain_err(state, common.DOMAIN_BEACON_ATTESTER, indexedAttestation.Data.Target.Epoch) && idxatt_sig_ok(state_domain(state, common.DOMAIN_BEACON_ATTESTER, indexedAttestation.Data.Target.Epoch), epc.ValidatorPubkeyCache, *indexedAttestation)
 
 // compute_subnet_for_attestation (with the implementation's extra range check on the committee index)
 //@ func ComputeSubnetForAttestation(spec, committeesPerSlot, slot, committeeIndex) (subnet, err)
@@ -171,10 +191,13 @@ package phase0
 // max count, non-empty, sorted, unique: assumed predicate (sort.IsSorted is outside the repository)
 //@ ufun idxset_ok(SpecP, IdxAttT) bool
 //@ func ValidateIndexedAttestationIndicesSet(spec, indexedAttestation) (set, err)
-//@   trusted
-//@   opt noalloc
-//@   ensures (err == nil) == idxset_ok(spec, *indexedAttestation)
+//@   property C03
+//@   requires spec != nil && indexedAttestation != nil
+//@   names (err == nil) == idxset_ok(spec, *indexedAttestation)
 //@   ensures err == nil ==> eqseq(set, indexedAttestation.AttestingIndices)
+//@   ensures shape: err == nil ==> 0 < len(indexedAttestation.AttestingIndices) && len(indexedAttestation.AttestingIndices) <= spec.MAX_VALIDATORS_PER_COMMITTEE && (forall i :: {indexedAttestation.AttestingIndices[i]} 1 <= i && i < len(indexedAttestation.AttestingIndices) ==> indexedAttestation.AttestingIndices[i - 1] != indexedAttestation.AttestingIndices[i])
+//@   loop 1
+//@     invariant 1 <= i && (forall k :: {indices[k]} 1 <= k && k < i && k < len(indices) ==> indices[k - 1] != indices[k])
 
 // BEGIN C18 generated (tools/gen_c18.py in /verif)
 // cancelled: a context cancelled before the call makes it fail; surfaced: a cancellation observed by a poll
